@@ -26,7 +26,7 @@ var ttmlAttrValues = map[string][]string{
 	"backgroundColor": {"black", "#00000080", "transparent"}, "color": {"white", "#ff0000", "rgba(1,2,3,4)"}, "direction": {"ltr", "rtl"}, "display": {"auto", "none"},
 	"displayAlign": {"before", "center", "after"}, "extent": {"100% 10%", "80% 20%", "560px 62px"}, "fontFamily": {"sansSerif", "proportionalSansSerif", "Arial, Helvetica"},
 	"fontSize": {"100%", "18px", "1c 2c"}, "fontStyle": {"normal", "italic"}, "fontWeight": {"normal", "bold"}, "lineHeight": {"normal", "125%"}, "opacity": {"1.0", "0.5"},
-	"origin": {"0% 90%", "10% 80%"}, "overflow": {"visible", "hidden"}, "padding": {"0px", "1c 2c"}, "showBackground": {"always", "whenActive"},
+	"origin": {"0% 90%", "10% 80%", "10%  80%", " 5% 85% "}, "overflow": {"visible", "hidden"}, "padding": {"0px", "1c 2c"}, "showBackground": {"always", "whenActive"},
 	"textAlign": {"center", "left", "end"}, "textDecoration": {"none", "underline"}, "textOutline": {"black 1px", "none"}, "unicodeBidi": {"normal", "embed"},
 	"visibility": {"visible", "hidden"}, "wrapOption": {"wrap", "noWrap"}, "writingMode": {"lrtb", "tbrl"}, "zIndex": {"0", "3", "-2"},
 }
@@ -159,10 +159,19 @@ func ttmlGenTime(r *fw.Rand, m *ttmlModel, base int64) ttmlTime {
 			s := base/1e9 + r.I64n(20)
 			f := r.I64n(m.FrameRate)
 			return ttmlTime{Expr: fmt.Sprintf("%s:%s:%s:%s", pad2(s/3600), pad2(s/60%60), pad2(s%60), pad2(f)), Val: new(big.Rat).Add(ratMul(s, 1e9, 1), ratMul(f, 1e9, m.FrameRate))}
-		case 4: // Nh / N.NNNh
+		case 4: // Nh / N.NNNh / N.NNNNNh
+			if r.P(1, 3) {
+				// hundred-thousandths of an hour (36 ms): more decimals than the milliseconds a clock time has
+				u := base/36000000 + r.I64n(200000)
+				return ttmlTime{Expr: fmt.Sprintf("%d.%05dh", u/100000, u%100000), Val: ratMul(u, 36000000, 1)}
+			}
 			milli := base/3600000000 + r.I64n(2000) // thousandths of an hour
 			return ttmlTime{Expr: ttmlDec(milli, r) + "h", Val: ratMul(milli, 3600000000, 1)}
 		case 5: // m
+			if r.P(1, 3) {
+				u := base/600000 + r.I64n(3000000) // hundred-thousandths of a minute (0.6 ms)
+				return ttmlTime{Expr: fmt.Sprintf("%d.%05dm", u/100000, u%100000), Val: ratMul(u, 600000, 1)}
+			}
 			milli := base/60000000 + r.I64n(30000)
 			return ttmlTime{Expr: ttmlDec(milli, r) + "m", Val: ratMul(milli, 60000000, 1)}
 		case 6: // s or ms
@@ -314,6 +323,7 @@ type ttmlRender struct {
 	langSuffix       string
 	cdata            bool
 	stylingAfterBody bool
+	wrap             bool
 }
 
 func (o ttmlRender) String() string {
@@ -324,7 +334,7 @@ func (o ttmlRender) String() string {
 func ttmlGenRender(r *fw.Rand) ttmlRender {
 	return ttmlRender{indent: fw.Pick(r, []string{"", "", "  ", "    ", "\t"}), elemPrefix: fw.Pick(r, []string{"", "", "tt:", "x:"}), attrPrefix: r.Bool(), paramPrefix: r.Bool(),
 		xmlID: r.Bool(), xmlLang: r.Bool(), brKind: r.Intn(4), brInSpan: r.Bool(), bareText: r.Bool(), singleQuote: r.P(1, 4), decl: r.Bool(), twoDivs: r.P(1, 4),
-		comments: r.P(1, 5), langSuffix: fw.Pick(r, []string{"", "", "-FR", "-Hans-CN"}), cdata: r.P(1, 5)}
+		wrap: r.P(1, 4), comments: r.P(1, 5), langSuffix: fw.Pick(r, []string{"", "", "-FR", "-Hans-CN"}), cdata: r.P(1, 5)}
 }
 
 func xmlEsc(s string, attr bool) string {
@@ -486,7 +496,14 @@ func ttmlRenderDoc(m ttmlModel, o ttmlRender, r *fw.Rand) []byte {
 		if o.cdata && !strings.Contains(s, "]]>") && r.Bool() {
 			return "<![CDATA[" + s + "]]>"
 		}
-		return xmlEsc(s, false)
+		e := xmlEsc(s, false)
+		if o.wrap && o.indent != "" {
+			// word-wrapped source text: the space stays at the end of the line, the next line is indented
+			if i := strings.Index(e, " "); i > 0 && i+1 < len(e) && e[i+1] != ' ' {
+				e = e[:i+1] + "\n" + strings.Repeat(o.indent, 5) + e[i+1:]
+			}
+		}
+		return e
 	}
 	for k, c := range m.Cues {
 		if o.twoDivs && k == len(m.Cues)/2 && k > 0 {
